@@ -264,7 +264,7 @@ def run(R):
               "1-3, indifference classes of size 1-3, empty categories; written in PrefLib file syntax, parsed by preflibtools, converted with every "
               "tie-breaker (random under a seed) and offered to all four other converters (must be rejected). Non-trivial = >= 2 alternatives.")
     R.assumptions = ["preflibtools' parser is trusted", "the final Profile.of validation is outside the model"]
-    items = [{"inst": gen_instance(R), "seed": R.rng.randrange(10 ** 6)} for _ in range(10000 if R.thorough else 260)]
+    items = [{"inst": gen_instance(R), "seed": R.rng.randrange(10 ** 6)} for _ in range(10000 if R.thorough else 700)]
     run_items(R, items)
 
 
